@@ -161,6 +161,9 @@ func (c *Channel) Deliver(out, x []byte) ([]byte, error) {
 				}
 			}
 			if isApp {
+				if c.sessions[1].Session == s {
+					c.lastReceived = now
+				}
 				appData = out
 				return nil, nil
 			}
